@@ -10,9 +10,10 @@ Correspondence of lean/AmaranthVerif/Model/Memory.lean (+ Spec/MemoryRows.lean) 
               write ports: error kinds against the model of the constructors (the malformed stream); whole
               constructor sequences against `Mem.mkCfg` (what `ctor_wf` / `inv_init` quantify over).
 3. walks      real memories (unsigned / signed / struct / array rows, depths 0 1 2 3 5 8, 0-3 read x 0-3 write
-              ports, comb / sync, 1-2 hand-driven clock domains with pos/neg edges and none/sync/async resets,
+              ports, comb / sync, 1-3 hand-driven clock domains with pos/neg edges and none/sync/async resets,
               every transparency subset the constructor allows, granularity over the divisors of the width,
-              optionally wrapped in DomainRenamer / ResetInserter / EnableInserter). Random address / data /
+              optionally wrapped in DomainRenamer / ResetInserter / EnableInserter; renamer maps include swaps,
+              chains and rotations over the 1-3 clock domains, evaluated by the model's `Cfg.rename`). Random address / data /
               enable sequences, coincident clock edges, reset pulses, testbench row writes
               `ctx.set(mem.data[i], v)` and slice writes interleaved, among them accesses to rows that do
               not exist (`i` = depth, beyond, negative: `IndexError` expected, state untouched — the model's
@@ -45,7 +46,14 @@ LEVEL = "proof"
 EXE = "amodel_c11"
 
 DEPTHS = (0, 1, 2, 3, 5, 8)
-DOM_NAMES = ("a", "b")
+DOM_NAMES = ("a", "b", "c")
+EXTRA_NAMES = ("x", "y")          # domain names that exist only below a DomainRenamer
+
+
+def name_index(cfg, name):
+    """domains as numbers for the driver: the clock domains of the design first, then the names only a renamer knows"""
+    nd = len(cfg["doms"])
+    return DOM_NAMES.index(name) if name in DOM_NAMES[:nd] else nd + EXTRA_NAMES.index(name)
 
 
 # ------------------------------------------------------------------------------------------------
@@ -145,10 +153,18 @@ def cfg_sexp(cfg, wr_model):
     """wr_model: [(gran_bits, enw)] as computed by the *model* of the constructor"""
     sh = cfg["shape"]
     doms = " ".join(f"({'p' if d['edge'] == 'pos' else 'n'} {d['rst']})" for d in cfg["doms"])
-    rds = " ".join(f"({-1 if r['dom'] is None else r['dom']} ({' '.join(map(str, r['transp']))}))" for r in cfg["rds"])
-    wrs = " ".join(f"({w['dom']} {g} {n})" for w, (g, n) in zip(cfg["wrs"], wr_model))
+    ren = ""
+    if cfg.get("rename") is not None:
+        # under a DomainRenamer the driver gets the domains the ports were *declared* in and the renamer's map (entries
+        # in dictionary order); where every port ends up is the model's business (`Cfg.rename`)
+        pdom = lambda p: name_index(cfg, p["decl"])
+        ren = " (rename " + " ".join(f"({name_index(cfg, a)} {name_index(cfg, b)})" for a, b in cfg["rename"]) + ")"
+    else:
+        pdom = lambda p: p["dom"]
+    rds = " ".join(f"({-1 if r['dom'] is None else pdom(r)} ({' '.join(map(str, r['transp']))}))" for r in cfg["rds"])
+    wrs = " ".join(f"({pdom(w)} {g} {n})" for w, (g, n) in zip(cfg["wrs"], wr_model))
     return (f"(cfg {shape_width(sh)} {'s' if shape_signed(sh) else 'u'} {cfg['depth']} ({' '.join(map(str, full_init(cfg)))}) "
-            f"(doms {doms}) (rds {rds}) (wrs {wrs}) (rdinit {' '.join(map(str, rd_init(cfg)))}))")
+            f"(doms {doms}) (rds {rds}) (wrs {wrs}) (rdinit {' '.join(map(str, rd_init(cfg)))}){ren})")
 
 
 def state_sexp(rows, rd, clk, rst):
@@ -246,9 +262,10 @@ def _build(cfg):
             if castable else list(cfg["init"]))
     mem = Memory(shape=shape, depth=cfg["depth"], init=init)
     wrap = cfg.get("wrap")
-    pname = (lambda k: "xy"[k]) if wrap == "rename" else (lambda k: DOM_NAMES[k])
-    wps = [mem.write_port(domain=pname(w["dom"]), granularity=w["gran"]) for w in cfg["wrs"]]
-    rps = [mem.read_port(domain="comb" if r["dom"] is None else pname(r["dom"]),
+    # under a DomainRenamer every port is created in the domain it is *declared* in
+    pname = (lambda p: p["decl"]) if wrap == "rename" else (lambda p: DOM_NAMES[p["dom"]])
+    wps = [mem.write_port(domain=pname(w), granularity=w["gran"]) for w in cfg["wrs"]]
+    rps = [mem.read_port(domain="comb" if r["dom"] is None else pname(r),
                          transparent_for=[wps[i] for i in r["transp"]]) for r in cfg["rds"]]
     m = Module()
     cds = []
@@ -259,7 +276,7 @@ def _build(cfg):
     ctl = [Signal(name=f"ctl_{DOM_NAMES[k]}") for k in range(len(cds))]
     top = mem
     if wrap == "rename":
-        top = DomainRenamer({"x": "a", "y": "b"})(mem)
+        top = DomainRenamer({a: b for a, b in cfg["rename"]})(mem)
     elif wrap == "reset":
         top = ResetInserter({DOM_NAMES[k]: ctl[k] for k in range(len(cds))})(mem)
     elif wrap == "enable":
@@ -526,7 +543,7 @@ def gen_cfg(rng, depth=None, max_ports=3):
     sh = gen_shape(rng)
     depth = rng.choice(DEPTHS) if depth is None else depth
     w = shape_width(sh)
-    nd = rng.choice([1, 1, 2, 2, 2])
+    nd = rng.choice([1, 1, 2, 2, 2, 3])
     doms = [{"edge": rng.choice(["pos", "pos", "neg"]), "rst": rng.choice(["sync", "sync", "none", "async"])} for _ in range(nd)]
     nw = rng.choice([0, 1, 1, 2, 2, 3][:2 * max_ports])
     nr = rng.choice([0, 1, 1, 2, 2, 3][:2 * max_ports])
@@ -546,10 +563,58 @@ def gen_cfg(rng, depth=None, max_ports=3):
     if shape_castable(sh):
         # an explicit `None` in `init` asks for the shape's default as well
         init = [None if rng.random() < 0.15 else v for v in init]
-    wrap = rng.choice([None, None, None, None, "rename", "reset", "enable"])
-    if wrap == "rename" and nd > 2:
-        wrap = None
-    return {"shape": sh, "depth": depth, "init": init, "doms": doms, "wrs": wrs, "rds": rds, "wrap": wrap}
+    wrap = rng.choice([None, None, None, None, "rename", "rename", "reset", "enable"])
+    cfg = {"shape": sh, "depth": depth, "init": init, "doms": doms, "wrs": wrs, "rds": rds, "wrap": wrap}
+    if wrap == "rename":
+        gen_rename(rng, cfg)
+    return cfg
+
+
+RENAME_SHAPES = {
+    # shape -> entries in dictionary order; a, b, c: clock domains of the design (a random permutation), x, y: names that
+    # exist only below the renamer. "overlap": some target is also a source listed later in the dictionary - renaming the
+    # ports one entry after the other instead of all at once would move a port twice
+    1: [("fresh", [("x", "a")]), ("fresh", [("x", "a"), ("y", "a")]), ("identity", [("a", "a"), ("x", "a")])],
+    2: [("fresh", [("x", "a"), ("y", "b")]), ("swap", [("a", "b"), ("b", "a")]), ("swap", [("a", "b"), ("b", "a")]),
+        ("chain:source-first", [("x", "a"), ("a", "b")]), ("chain:source-first", [("y", "b"), ("x", "y"), ("b", "a")]),
+        ("chain:target-first", [("a", "b"), ("x", "a")]), ("swap+fresh", [("x", "b"), ("a", "b"), ("b", "a")]),
+        ("merge", [("a", "b"), ("x", "b")]), ("rotation:through-fresh", [("x", "a"), ("a", "b"), ("b", "a")])],
+    3: [("swap", [("a", "b"), ("b", "a")]), ("chain:source-first", [("a", "b"), ("b", "c")]),
+        ("chain:source-first", [("x", "a"), ("a", "b"), ("b", "c")]), ("chain:target-first", [("b", "c"), ("a", "b")]),
+        ("rotation", [("a", "b"), ("b", "c"), ("c", "a")]), ("rotation", [("a", "b"), ("b", "c"), ("c", "a")]),
+        ("rotation:listed-backwards", [("c", "a"), ("b", "c"), ("a", "b")]), ("fresh", [("x", "a"), ("y", "c")]),
+        ("swap+move", [("a", "b"), ("b", "a"), ("c", "a")])],
+}
+
+
+def gen_rename(rng, cfg):
+    """put the memory under a DomainRenamer: choose the map, declare every port in a domain name that the map (read as
+    Python reads a dictionary: one lookup per port) sends to a clock domain of the design, keep transparency lists
+    within one declared domain (the constructor's rule). `dom` of a port is the harness' own bookkeeping of where the
+    port ends up (which events are interesting, EnableInserter-free); the expected behaviour comes from the driver,
+    which gets the declared domains and the map, and whose answer must agree with this bookkeeping."""
+    nd = len(cfg["doms"])
+    shape, entries = rng.choice(RENAME_SHAPES[nd])
+    perm = rng.sample(DOM_NAMES[:nd], nd)
+    sub = dict(zip("abc", perm))
+    entries = [(sub.get(a, a), sub.get(b, b)) for a, b in entries]
+    mp = dict(entries)
+    real = DOM_NAMES[:nd]
+    declarable = [n for n in list(mp) + [r for r in real if r not in mp] if mp.get(n, n) in real]
+    for w in cfg["wrs"]:
+        w["decl"] = rng.choice(declarable)
+        w["dom"] = real.index(mp.get(w["decl"], w["decl"]))
+    for r in cfg["rds"]:
+        if r["dom"] is None:
+            continue
+        r["decl"] = rng.choice(declarable)
+        r["dom"] = real.index(mp.get(r["decl"], r["decl"]))
+        cand = [i for i, x in enumerate(cfg["wrs"]) if x["decl"] == r["decl"]]
+        sub_t = [i for i in cand if rng.random() < 0.6]
+        rng.shuffle(sub_t)
+        r["transp"] = sub_t
+    cfg["rename"] = [list(e) for e in entries]
+    cfg["rename_shape"] = shape
 
 
 def en_width_guess(cfg, w):
@@ -742,7 +807,10 @@ class Judge:
 def describe(cfg):
     return (f"shape={cfg['shape']} depth={cfg['depth']} doms={[(d['edge'], d['rst']) for d in cfg['doms']]} "
             f"wr={[(w['dom'], w['gran']) for w in cfg['wrs']]} rd={[(r['dom'], r['transp']) for r in cfg['rds']]}"
-            + (f" wrap={cfg['wrap']}" if cfg.get("wrap") else ""))
+            + (f" wrap={cfg['wrap']}" if cfg.get("wrap") else "")
+            + (f" DomainRenamer({dict(map(tuple, cfg['rename']))}) ports declared in wr={[w['decl'] for w in cfg['wrs']]} "
+               f"rd={[r.get('decl', 'comb') for r in cfg['rds']]} (domain {list(DOM_NAMES[:len(cfg['doms'])])} = index 0..)"
+               if cfg.get("rename") is not None else ""))
 
 
 def describe_op(op):
@@ -811,11 +879,15 @@ def run(chk):
         "walks: configuration = row shape (unsigned 0..12 / signed 1..8 / StructLayout / ArrayLayout incl. zero-width / data.Struct and "
         "data.Union classes with field defaults / a user-defined shape-castable with a declared default: 16 % of the memories have a "
         "row shape whose default constant is not 0) x depth in "
-        f"{list(DEPTHS)} x 1-2 domains (pos/neg edge, reset none/sync/async) x 0-3 write ports (domain, granularity over the divisors "
+        f"{list(DEPTHS)} x 1-3 domains (pos/neg edge, reset none/sync/async) x 0-3 write ports (domain, granularity over the divisors "
         "of the width or array length, or None) x 0-3 read ports (comb or sync, transparency = random subset of the same-domain write "
         "ports in random order) x initial rows (none/partial/full; for shape-castable rows 15 % of the entries are an explicit None; "
         "the expected contents of rows that init leaves out are computed by the harness from the field defaults and offsets - "
-        "shape_default - and compared with every row and every read port before the first operation) x wrapper (none/DomainRenamer/ResetInserter/EnableInserter); "
+        "shape_default - and compared with every row and every read port before the first operation) x wrapper (none/DomainRenamer/ResetInserter/EnableInserter; "
+        "a DomainRenamer's map is drawn from: fresh names only, swap, chain listed source-first / target-first, rotation (3 domains, or "
+        "through a fresh name), merge, identity entries, swap+move - over a random permutation of the 1-3 clock domains; every port is "
+        "declared in a name the map sends to a clock domain; the driver gets the declared domains and the map and applies the "
+        "simultaneous renaming itself, Cfg.rename); "
         "operations = seeded inputs (addresses random / two hot addresses / one address; enables all-ones, zero or random bits) followed by "
         "a clock event (each domain's clock toggles with p=.75, resets pulse) or a testbench row / row-slice write (1.5 % of the "
         "operations name a row that does not exist - index = depth, beyond it, or negative - and must raise IndexError). distinct = distinct "
@@ -962,8 +1034,13 @@ def run(chk):
         items = r.split(";")
         if not items[0].startswith("init="):
             raise common.Infra(f"driver: {r[:300]} for {reqs[idx.index(k)][:300]}")
-        irows, ird = items[0][5:].split("|")
+        irows, ird, *final = items[0][5:].split("|")
         f = lambda s: [int(v) for v in s.split(",")] if s else []
+        if cfg.get("rename") is not None:
+            # where the model's simultaneous renaming puts every port must be what the harness assumed when it chose the events
+            mine = [[w["dom"] for w in cfg["wrs"]], [-1 if rr["dom"] is None else rr["dom"] for rr in cfg["rds"]]]
+            if [f(x) for x in final] != mine:
+                raise common.Infra(f"renamed port domains: model {final}, harness {mine} for {describe(cfg)}")
         chk.count(len(obs) - 1)
         if (f(irows), f(ird)) != (obs[0][0], obs[0][1]):
             chk.violation(f"memory {describe(cfg)}: initial rows / read data {obs[0]} differ from the declared ones {f(irows)}",
@@ -1008,6 +1085,13 @@ def run(chk):
         chk.hist("ports", f"r{len(cfg['rds'])}w{len(cfg['wrs'])}")
         chk.hist("domains", "+".join(sorted(d["edge"] + "/" + d["rst"] for d in cfg["doms"])))
         chk.hist("wrap", cfg.get("wrap"))
+        if cfg.get("rename") is not None:
+            chk.hist("rename_map", cfg["rename_shape"])
+            srcs = [a for a, _b in cfg["rename"]]
+            twice = [p for p in cfg["wrs"] + [rr for rr in cfg["rds"] if rr["dom"] is not None]
+                     if p["decl"] in srcs and dict(map(tuple, cfg["rename"]))[p["decl"]] in srcs[srcs.index(p["decl"]) + 1:]]
+            chk.hist("rename_ports", "declared in a source whose target is a later source (entry-by-entry renaming would move it twice)", len(twice))
+            chk.hist("rename_ports", "all renamed-memory ports", len(cfg["wrs"]) + sum(1 for rr in cfg["rds"] if rr["dom"] is not None))
         # how the initial contents were declared, and how many rows rely on the row shape's default constant
         sh = cfg["shape"]
         dcls = "plain" if not shape_castable(sh) else ("castable,default!=0" if shape_default(sh) else "castable,default=0")
